@@ -663,7 +663,7 @@ theorem c19_runtests_header_once (simRange : List Nat) (r0 : Option (List S)) (r
 /-- without a range every run is executed; `a:b` executes exactly the runs a..b; `a` only run a; `a:` from a on;
 a first field that is no number executes everything (`:4` too) -/
 theorem c19_range_none_runs_all (n i : Nat) (h : i < n) : inRange (getStartStop [] n) i = true := by
-  simp [getStartStop, splitColon, atoi, inRange]; omega
+  simp [getStartStop, splitColon, atoiPair, atoi, inRange]; omega
 
 example : getStartStop [51, 58, 52] 10 = (3, 4) ∧ getStartStop [51] 10 = (3, 3) ∧
     getStartStop [51, 58] 10 = (3, 10) ∧ getStartStop [58, 52] 10 = (0, 9) ∧ getStartStop [] 10 = (0, 9) := by
